@@ -48,10 +48,22 @@ pub(super) fn parse(bytes: &[u8]) -> ParseResult {
 
     match serde_json::from_slice::<OptionWrapper<Inventory>>(bytes) {
         Ok(OptionWrapper(Some(inventory))) => ParseResult::Ok(take_result(), inventory),
-        Ok(_) => ParseResult::Error(take_result()),
+        Ok(_) => {
+            let result = take_result();
+            if !result.has_errors() {
+                // eg the json is `null`
+                result.error(
+                    ErrorCode::E033,
+                    "Inventory could not be parsed: it is not a JSON object".to_string(),
+                );
+            }
+            ParseResult::Error(result)
+        }
         Err(e) => {
             let result = take_result();
-            if !e.is_data() {
+            // Data errors are normally recorded by the visitors, except when the top level
+            // value is not an object
+            if !e.is_data() || !result.has_errors() {
                 result.error(
                     ErrorCode::E033,
                     format!("Inventory could not be parsed: {}", e),
